@@ -338,19 +338,19 @@ pub fn c01() -> CheckDef {
     CheckDef {
         property: "C01",
         families: vec![
-            Family { name: "a_id_cycle", world: "A", weight: 1, gen: c01_gen_cycle, oracles: c01_oracles, adversary: Some(c01_adv_cycle), keep_workload: true, custom: None,
+            Family { name: "a_id_cycle", world: "A", weight: 1, gen: c01_gen_cycle, oracles: c01_oracles, adversary: Some(c01_adv_cycle), claims: None, keep_workload: true, custom: None,
                 what: "one stream of 2^20 + 8000 small packets (all modes but TimeSensitive, 4 channels) on a clean link; copies of its first 120 data frames are delivered again when the receiver's packet window has come once round the 20-bit id space (one run in 3001: three per quick tier)" },
-            Family { name: "a_mixed", world: "A", weight: 800, gen: c01_gen_mixed, oracles: c01_oracles, adversary: None, keep_workload: false, custom: None,
+            Family { name: "a_mixed", world: "A", weight: 800, gen: c01_gen_mixed, oracles: c01_oracles, adversary: None, claims: None, keep_workload: false, custom: None,
                 what: "two half connections, both directions, all modes, up to 64 channels, drop/dup/reorder/1-4 bit flips/blackouts/type-targeted loss in phases, random cadences and stalls" },
-            Family { name: "a_wrap", world: "A", weight: 600, gen: c01_gen_wrap, oracles: c01_oracles, adversary: None, keep_workload: false, custom: None,
+            Family { name: "a_wrap", world: "A", weight: 600, gen: c01_gen_wrap, oracles: c01_oracles, adversary: None, claims: None, keep_workload: false, custom: None,
                 what: "same, initial frame and packet ids within two windows of the 2^32 / 2^20 wrap-around and enough traffic to cross it" },
-            Family { name: "a_small_windows", world: "A", weight: 600, gen: c01_gen_small, oracles: c01_oracles, adversary: None, keep_workload: false, custom: None,
+            Family { name: "a_small_windows", world: "A", weight: 600, gen: c01_gen_small, oracles: c01_oracles, adversary: None, claims: None, keep_workload: false, custom: None,
                 what: "same, window sizes 1..64 so that windows fill and resynchronise constantly" },
-            Family { name: "a_window_edge", world: "A", weight: 600, gen: c01_gen_edge, oracles: c01_oracles, adversary: None, keep_workload: false, custom: None,
+            Family { name: "a_window_edge", world: "A", weight: 600, gen: c01_gen_edge, oracles: c01_oracles, adversary: None, claims: None, keep_workload: false, custom: None,
                 what: "packet windows of 2-16, two or three channels, mostly Persistent/Reliable packets, 10-30 % loss: the window is full most of the time and channels deliver and skip around a missing Reliable packet" },
-            Family { name: "a_window_mismatch", world: "A", weight: 300, gen: c01_gen_mismatch, oracles: c01_oracles, adversary: None, keep_workload: false, custom: None,
+            Family { name: "a_window_mismatch", world: "A", weight: 300, gen: c01_gen_mismatch, oracles: c01_oracles, adversary: None, claims: None, keep_workload: false, custom: None,
                 what: "the sender's packet window (8-256) is 2-8 times the receiver's: the sender runs ahead of the receive window under 5-30 % loss, one to three channels, in half of the runs equally sized packets of two or three fragments; what arrives from beyond the window has to be refused (HalfConnection accepts the two sizes independently; Client and Server always use 4096/4096)" },
-            Family { name: "b_mixed", world: "B", weight: 400, gen: c01_gen_b, oracles: c01_oracles, adversary: None, keep_workload: false, custom: None,
+            Family { name: "b_mixed", world: "B", weight: 400, gen: c01_gen_b, oracles: c01_oracles, adversary: None, claims: None, keep_workload: false, custom: None,
                 what: "real Client/Server over the simulated socket, 1-3 clients, both directions, default windows, handshake nonces steered to within 6000 of the 2^32 / 2^20 wrap-around in half of the runs, drop/dup/reorder/flips" },
         ],
         panic_is_violation: no_panics,
@@ -486,11 +486,11 @@ fn c02_oracles(plan: &Plan) -> Vec<Box<dyn Oracle>> {
 pub fn c02() -> CheckDef {
     CheckDef {
         property: "C02",
-        families: vec![Family { name: "a_fault_then_fair", world: "A", weight: 3, gen: c02_gen, oracles: c02_oracles, adversary: None, keep_workload: false, custom: None,
+        families: vec![Family { name: "a_fault_then_fair", world: "A", weight: 3, gen: c02_gen, oracles: c02_oracles, adversary: None, claims: None, keep_workload: false, custom: None,
             what: "finite fault prefix (loss/dup/reorder/flips/blackouts/ack- or sync-targeted loss, stalls) then a fair link (<= 200 ms, stepping <= 200 ms); safety on every delivery, liveness at quiescence or after T_live = 900 s + 128 s x 80 frames" },
-            Family { name: "b_fault_then_fair", world: "B", weight: 2, gen: c02_gen_b, oracles: c02_oracles, adversary: None, keep_workload: false, custom: None,
+            Family { name: "b_fault_then_fair", world: "B", weight: 2, gen: c02_gen_b, oracles: c02_oracles, adversary: None, claims: None, keep_workload: false, custom: None,
                 what: "the same through the public API: real Client/Server (1-3 clients, both directions), faults until the heal, then a fair link; at most 64 frames of payload per direction" },
-            Family { name: "b_one_way_stream", world: "B", weight: 1, gen: c02_gen_one_way, oracles: c02_oracles, adversary: None, keep_workload: false, custom: None,
+            Family { name: "b_one_way_stream", world: "B", weight: 1, gen: c02_gen_one_way, oracles: c02_oracles, adversary: None, claims: None, keep_workload: false, custom: None,
                 what: "loss-free link (latency 0.1-100 ms, jitter, duplicates), one side streams Reliable packets every 3 ms .. timeout/3 for 2-4 (thorough: 2-8) silence timeouts (1.5-25 s), the other side only acknowledges, with its keepalive off, slower than the timeout, or on: nothing may end the connection, so every packet has to arrive" }],
         panic_is_violation: no_panics,
         hang_is_violation: false,
@@ -781,17 +781,17 @@ pub fn c03() -> CheckDef {
     CheckDef {
         property: "C03",
         families: vec![
-            Family { name: "a_hostile_peer", world: "A", weight: 5, gen: c03_gen_hostile_peer, oracles: states_only, adversary: Some(c03_adv_peer), keep_workload: false, custom: None,
+            Family { name: "a_hostile_peer", world: "A", weight: 5, gen: c03_gen_hostile_peer, oracles: states_only, adversary: Some(c03_adv_peer), claims: None, keep_workload: false, custom: None,
                 what: "victim half connection vs a connected hostile peer: CRC-valid data/sync/ack frames with boundary, near-valid (computed from the victim's own frames) and random fields, fragment counts up to 65535, handshake/disconnect frames, random bytes, replays; interleaved with send/step/flush at arbitrary times incl. 0 us spacing" },
-            Family { name: "u_feedback", world: "U", weight: 2, gen: c03_gen_u, oracles: states_only, adversary: None, keep_workload: false, custom: None,
+            Family { name: "u_feedback", world: "U", weight: 2, gen: c03_gen_u, oracles: states_only, adversary: None, claims: None, keep_workload: false, custom: None,
                 what: "the rate computer alone, as in C14: every sequence of acknowledgements amounts to some sequence of feedback reports (RTT samples 0..60 s, receive rates 0..2^32-1, loss rates 0..1, gaps 0 ms..10 min, ceilings 0..2^32-1); step() has to return" },
-            Family { name: "a_hostile_mitm", world: "A", weight: 3, gen: c03_gen_mitm, oracles: states_only, adversary: Some(c03_adv_mitm), keep_workload: false, custom: None,
+            Family { name: "a_hostile_mitm", world: "A", weight: 3, gen: c03_gen_mitm, oracles: states_only, adversary: Some(c03_adv_mitm), claims: None, keep_workload: false, custom: None,
                 what: "genuine pair under faults plus a hostile middlebox injecting crafted frames at both ends" },
-            Family { name: "b_connected_attacker", world: "B", weight: 3, gen: c03_gen_b, oracles: c03_oracles_b, adversary: Some(c03_adv_b), keep_workload: true, custom: Some(twin_events_run),
+            Family { name: "b_connected_attacker", world: "B", weight: 3, gen: c03_gen_b, oracles: c03_oracles_b, adversary: Some(c03_adv_b), claims: None, keep_workload: true, custom: Some(twin_events_run),
                 what: "real Server with 1-2 genuine clients (echo traffic) attacked from 1-3 raw sockets: most complete the handshake by hand (SYN, read the SYN-ACK, return the nonce) and then send crafted data/sync/ack/handshake/disconnect frames computed from what the server tells them; the others send arbitrary frames; twin run without the attacker's datagrams: the genuine endpoints' event streams (Connect / Receive with payload / Disconnect / Error, with their times) must be identical, i.e. offending input is discarded and the other connections keep being served exactly as before" },
-            Family { name: "b_hostile_server", world: "B", weight: 2, gen: c03_gen_b_server, oracles: states_only, adversary: Some(c03_adv_b_server), keep_workload: true, custom: None,
+            Family { name: "b_hostile_server", world: "B", weight: 2, gen: c03_gen_b_server, oracles: states_only, adversary: Some(c03_adv_b_server), claims: None, keep_workload: true, custom: None,
                 what: "real Client whose server is a raw socket driven by a hostile peer: the connection request is answered by hand (nonce echoed, sometimes not; limits from {0, 1, 22, 23, 1448, 1449, ..., 2^32-1}; answered twice with different limits, followed by a refusal, or only after repeats), then crafted data/sync/ack/handshake/disconnect frames computed from what the client tells it; the application hands over packets of 0 bytes..max_packet_size before and after the handshake on all 64 channels, steps every 0-60 ms, flushes, disconnects" },
-            Family { name: "a_genuine", world: "A", weight: 2, gen: c03_gen_genuine, oracles: states_only, adversary: None, keep_workload: false, custom: None,
+            Family { name: "a_genuine", world: "A", weight: 2, gen: c03_gen_genuine, oracles: states_only, adversary: None, claims: None, keep_workload: false, custom: None,
                 what: "genuine pair only: loss, blackouts, delay, stalls (panics and hangs reachable without any forged frame)" },
         ],
         panic_is_violation: all_panics,
@@ -1099,15 +1099,15 @@ pub fn c04() -> CheckDef {
     CheckDef {
         property: "C04",
         families: vec![
-            Family { name: "a_max_packet", world: "A", weight: 1, gen: c04_gen_max, oracles: c04_oracles, adversary: None, keep_workload: true, custom: None,
+            Family { name: "a_max_packet", world: "A", weight: 1, gen: c04_gen_max, oracles: c04_oracles, adversary: None, claims: None, keep_workload: true, custom: None,
                 what: "one Reliable or Persistent packet of the largest size there is (65536 fragments, 94.9 MB, or up to one fragment less) on a clean fast link, between two small packets (one run in 601: three per quick tier)" },
-            Family { name: "a_lengths", world: "A", weight: 200, gen: c04_gen_lengths, oracles: c04_oracles, adversary: None, keep_workload: false, custom: None,
+            Family { name: "a_lengths", world: "A", weight: 200, gen: c04_gen_lengths, oracles: c04_oracles, adversary: None, claims: None, keep_workload: false, custom: None,
                 what: "payload length swept over {0,1,2,11..13,63..65,255..257, k*1448-2..k*1448+2 for k=1..8,16,45, 1 MB; in the runs from index 2000 on: 63/64/65, 127/128/129, 191/192/193, 255/256/257 fragments} by run index; fragments permuted, duplicated, partially lost and resent, interleaved with other packets, flush budgets that cut packets; then a clean link until everything Reliable has arrived" },
-            Family { name: "b_lengths", world: "B", weight: 200, gen: c04_gen_b, oracles: c04_oracles_b, adversary: None, keep_workload: false, custom: None,
+            Family { name: "b_lengths", world: "B", weight: 200, gen: c04_gen_b, oracles: c04_oracles_b, adversary: None, claims: None, keep_workload: false, custom: None,
                 what: "the same length sweep through real Client/Server (both directions, several clients), bounded by the configured max_packet_size / max_receive_alloc; in a quarter of the runs the last swept packet is followed at once by a graceful disconnect() and must still arrive whole before the peer sees Disconnect" },
-            Family { name: "a_window_cut", world: "A", weight: 60, gen: c04_gen_window_cut, oracles: c04_oracles_window_cut, adversary: None, keep_workload: false, custom: None,
+            Family { name: "a_window_cut", world: "A", weight: 60, gen: c04_gen_window_cut, oracles: c04_oracles_window_cut, adversary: None, claims: None, keep_workload: false, custom: None,
                 what: "one-way traffic over a forward link that loses nothing and keeps order, frame windows of 2-16 frames, packets of more fragments than the window has room for (mostly Unreliable), acknowledgements held back for 2.2-8 s at a time (longer than the sender's sync timeout): every fragment arrives, so every packet is delivered whole, once and in order" },
-            Family { name: "a_rewrite", world: "A", weight: 200, gen: c04_gen_rewrite, oracles: c04_oracles, adversary: Some(c04_adv), keep_workload: true, custom: None,
+            Family { name: "a_rewrite", world: "A", weight: 200, gen: c04_gen_rewrite, oracles: c04_oracles, adversary: Some(c04_adv), claims: None, keep_workload: true, custom: None,
                 what: "same sweep, plus a hostile middlebox that appends to genuine frames a forged fragment for a packet in progress whose header disagrees with the first fragment seen (last-fragment id, channel or parent leads)" },
         ],
         panic_is_violation: panics_in_frame_building,
@@ -1241,11 +1241,11 @@ fn c05_oracles(plan: &Plan) -> Vec<Box<dyn Oracle>> {
 pub fn c05() -> CheckDef {
     CheckDef {
         property: "C05",
-        families: vec![Family { name: "b_ideal", world: "B", weight: 1, gen: c05_gen_b, oracles: c05_oracles, adversary: None, keep_workload: false, custom: None,
+        families: vec![Family { name: "b_ideal", world: "B", weight: 1, gen: c05_gen_b, oracles: c05_oracles, adversary: None, claims: None, keep_workload: false, custom: None,
             what: "the same through the public API: real Client/Server on a loss-free order-preserving link, 1-3 clients, both directions" },
-        Family { name: "b_one_way_stream", world: "B", weight: 1, gen: c05_gen_one_way, oracles: c05_oracles, adversary: None, keep_workload: false, custom: None,
+        Family { name: "b_one_way_stream", world: "B", weight: 1, gen: c05_gen_one_way, oracles: c05_oracles, adversary: None, claims: None, keep_workload: false, custom: None,
             what: "ideal link, one side streams packets of all modes but TimeSensitive every 3 ms .. timeout/3 for several silence timeouts (1.5-25 s) while the other side only acknowledges, with its keepalive off, slower than the timeout, or on: nothing may end the connection, so every packet has to arrive, in order" },
-        Family { name: "a_ideal", world: "A", weight: 3, gen: c05_gen, oracles: c05_oracles, adversary: None, keep_workload: false, custom: None,
+        Family { name: "a_ideal", world: "A", weight: 3, gen: c05_gen, oracles: c05_oracles, adversary: None, claims: None, keep_workload: false, custom: None,
             what: "order-preserving loss-free link (fixed or varying latency 0.05 ms..3 s), both directions, bursts beyond the flush budget and both windows, arbitrary cadences and stalls, all initial ids; delivered sequence must equal submitted sequence minus sender-dropped TimeSensitive packets" }],
         panic_is_violation: all_panics,
         hang_is_violation: false,
@@ -1405,17 +1405,17 @@ pub fn c06() -> CheckDef {
     CheckDef {
         property: "C06",
         families: vec![
-            Family { name: "a_max_packet", world: "A", weight: 1, gen: c06_gen_max, oracles: c06_oracles_sender, adversary: None, keep_workload: true, custom: None,
+            Family { name: "a_max_packet", world: "A", weight: 1, gen: c06_gen_max, oracles: c06_oracles_sender, adversary: None, claims: None, keep_workload: true, custom: None,
                 what: "a peer that advertises exactly one maximum-size packet (65536 fragments) of receive allocation; a small packet is outstanding when the maximum-size one is submitted, another follows (one run in 751)" },
-            Family { name: "a_sender_respects", world: "A", weight: 300, gen: c06_gen_sender, oracles: c06_oracles_sender, adversary: None, keep_workload: false, custom: None,
+            Family { name: "a_sender_respects", world: "A", weight: 300, gen: c06_gen_sender, oracles: c06_oracles_sender, adversary: None, claims: None, keep_workload: false, custom: None,
                 what: "genuine pairs, receive limits 1 byte..6 MB, windows 1..4096, all ack schedules and losses: packets taken from the send queue and not yet below the accepted window base stay within the advertised (fragment-rounded) allocation and 4096 packets; the genuine receiver never discards a packet for lack of memory" },
-            Family { name: "b_asymmetric_limits", world: "B", weight: 40, gen: c06_gen_limits, oracles: c06_oracles_limits, adversary: None, keep_workload: false, custom: None,
+            Family { name: "b_asymmetric_limits", world: "B", weight: 40, gen: c06_gen_limits, oracles: c06_oracles_limits, adversary: None, claims: None, keep_workload: false, custom: None,
                 what: "real Client/Server on a clean link with unequal limits on the two sides (incompatible pairs included): a client whose max_packet_size exceeds the server's max_receive_alloc, or whose max_receive_alloc is below the server's max_packet_size, is refused with Config; the negotiated allocation each side uses is the one its peer advertised" },
-            Family { name: "b_sender_respects", world: "B", weight: 120, gen: c06_gen_b, oracles: c06_oracles_sender, adversary: None, keep_workload: false, custom: None,
+            Family { name: "b_sender_respects", world: "B", weight: 120, gen: c06_gen_b, oracles: c06_oracles_sender, adversary: None, claims: None, keep_workload: false, custom: None,
                 what: "real Client/Server with receive allocations 2 kB..4 MB: the limit each sender uses is the one its peer advertised in the handshake, and is respected" },
-            Family { name: "a_hostile_stream", world: "A", weight: 300, gen: c06_gen_hostile_stream, oracles: c06_oracles_receiver, adversary: Some(c06_adv), keep_workload: false, custom: None,
+            Family { name: "a_hostile_stream", world: "A", weight: 300, gen: c06_gen_hostile_stream, oracles: c06_oracles_receiver, adversary: Some(c06_adv), claims: None, keep_workload: false, custom: None,
                 what: "victim receiver (limit 1 byte..4 MB) against a hostile stream: fragment counts up to 65536, ids inside/outside the window, never-completing packets, inconsistent parent leads, any read cadence; heap bytes attributed to the victim (allocator measurement) stay within the rounded limit plus a constant bookkeeping budget" },
-            Family { name: "a_ack_queue_flood", world: "A", weight: 30, gen: c06_gen_flood, oracles: c06_oracles_receiver, adversary: Some(c06_adv), keep_workload: false, custom: None,
+            Family { name: "a_ack_queue_flood", world: "A", weight: 30, gen: c06_gen_flood, oracles: c06_oracles_receiver, adversary: Some(c06_adv), claims: None, keep_workload: false, custom: None,
                 what: "victim with a 1472 B/s ceiling flooded with empty data frames whose ids are 32 apart, so that every frame opens a new acknowledgement group faster than they can be sent" },
         ],
         panic_is_violation: panics_in_packet_sender,
@@ -1555,11 +1555,11 @@ fn c12_gen_idle_backoff(seed: u64, run: u64, _thorough: bool) -> Plan {
 pub fn c12() -> CheckDef {
     CheckDef {
         property: "C12",
-        families: vec![Family { name: "b_modes", world: "B", weight: 1, gen: c12_gen_b, oracles: c12_oracles, adversary: None, keep_workload: false, custom: None,
+        families: vec![Family { name: "b_modes", world: "B", weight: 1, gen: c12_gen_b, oracles: c12_oracles, adversary: None, claims: None, keep_workload: false, custom: None,
             what: "the same wire-log oracle on real Client/Server traffic (default windows, several clients per server)" },
-        Family { name: "a_idle_backoff", world: "A", weight: 1, gen: c12_gen_idle_backoff, oracles: c12_oracles, adversary: None, keep_workload: false, custom: None,
+        Family { name: "a_idle_backoff", world: "A", weight: 1, gen: c12_gen_idle_backoff, oracles: c12_oracles, adversary: None, claims: None, keep_workload: false, custom: None,
             what: "round trips of 0.2-1.2 s, an otherwise idle sender, lone Reliable/Persistent packets whose data frames are all lost for 1-14 round trips while sync and ack frames get through: the retransmission back-off races the sender's sync timer; a Reliable packet may only be given up once the receiver has read all of it" },
-        Family { name: "a_modes", world: "A", weight: 3, gen: c12_gen, oracles: c12_oracles, adversary: None, keep_workload: false, custom: None,
+        Family { name: "a_modes", world: "A", weight: 3, gen: c12_gen, oracles: c12_oracles, adversary: None, claims: None, keep_workload: false, custom: None,
             what: "mixed modes, packets cut across flushes, acks arriving between fragments, losses and duplicates; every (packet id, fragment id) occurrence on the wire is attributed to its submission: Unreliable/TimeSensitive at most once, TimeSensitive begun by the first step() after send(), nothing re-emitted after its acknowledgement was processed or after the receiver moved past the packet" }],
         panic_is_violation: no_panics,
         hang_is_violation: false,
@@ -1784,15 +1784,15 @@ fn c13_adv(plan: &Plan) -> Option<Box<dyn Adversary>> {
 pub fn c13() -> CheckDef {
     CheckDef {
         property: "C13",
-        families: vec![Family { name: "b_rate", world: "B", weight: 2, gen: c13_gen_b, oracles: c13_oracles, adversary: None, keep_workload: false, custom: None,
+        families: vec![Family { name: "b_rate", world: "B", weight: 2, gen: c13_gen_b, oracles: c13_oracles, adversary: None, claims: None, keep_workload: false, custom: None,
             what: "real Client/Server: ceiling = min(local max_send_rate, peer max_receive_rate) from the two endpoint configurations" },
-        Family { name: "b_rate_lifecycle", world: "B", weight: 1, gen: c13_gen_life, oracles: c13_oracles, adversary: None, keep_workload: false, custom: None,
+        Family { name: "b_rate_lifecycle", world: "B", weight: 1, gen: c13_gen_life, oracles: c13_oracles, adversary: None, claims: None, keep_workload: false, custom: None,
             what: "a server (max_send_rate 0.2-50 MB/s) with a standing backlog for 1-2 clients whose max_receive_rate is 3-150 kB/s; the connection is cut (Server::drop, disconnect_now, client crash) and the same address is back within 0.02-3 s; stale connection requests advertising 4-100000 times the client's rate arrive from its address up to 21 s before it starts: everything the server sends to the address is held against the ceiling negotiated with the client that is there" },
-        Family { name: "a_ack_flood", world: "A", weight: 1, gen: c13_gen_ack_flood, oracles: c13_oracles, adversary: Some(c13_adv), keep_workload: false, custom: None,
+        Family { name: "a_ack_flood", world: "A", weight: 1, gen: c13_gen_ack_flood, oracles: c13_oracles, adversary: Some(c13_adv), claims: None, keep_workload: false, custom: None,
             what: "a sender with traffic of its own and a ceiling of 1472 B/s..1 MB/s whose connected peer floods it with empty data frames 32 ids apart (every frame opens a new acknowledgement group: hundreds of groups owed per flush) and acknowledges some of its frames; link delays up to 0.4 s so that the burst allowance ceiling x RTT has some size" },
-        Family { name: "a_sync_flood", world: "A", weight: 1, gen: c13_gen_sync_flood, oracles: c13_oracles, adversary: Some(c13_adv_sync), keep_workload: false, custom: None,
+        Family { name: "a_sync_flood", world: "A", weight: 1, gen: c13_gen_sync_flood, oracles: c13_oracles, adversary: Some(c13_adv_sync), claims: None, keep_workload: false, custom: None,
             what: "a backlogged sender at a ceiling of 1472 B/s..30 kB/s that steps every 1-20 ms while its connected peer sends it a sync frame before almost every step (each asks for an acknowledgement in reply) and acknowledges some of its frames" },
-        Family { name: "a_rate", world: "A", weight: 6, gen: c13_gen, oracles: c13_oracles, adversary: None, keep_workload: false, custom: None,
+        Family { name: "a_rate", world: "A", weight: 6, gen: c13_gen, oracles: c13_oracles, adversary: None, claims: None, keep_workload: false, custom: None,
             what: "ceilings 1472 B/s..50 MB/s on either side, backlogs of hundreds to thousands of packets, cadences from several flushes per step to seconds between steps, pauses, loss and feedback patterns; every window of data/sync/ack frames is checked against ceiling x (duration + largest RTT estimate held) + 1472" }],
         panic_is_violation: no_panics,
         hang_is_violation: false,
@@ -1955,11 +1955,11 @@ pub fn c14() -> CheckDef {
     CheckDef {
         property: "C14",
         families: vec![
-            Family { name: "u_feedback", world: "U", weight: 60, gen: c14_gen_u, oracles: c14_oracles, adversary: None, keep_workload: false, custom: None,
+            Family { name: "u_feedback", world: "U", weight: 60, gen: c14_gen_u, oracles: c14_oracles, adversary: None, claims: None, keep_workload: false, custom: None,
                 what: "the rate computer alone: sequences of frame-sent / step / step-with-feedback with gaps 0 ms..10 min, RTT samples 0..60 s, receive rates 0..2^32-1, loss rates 0..1 (monotone, jumping, zero after non-zero), rate-limited flag, ceilings 1472..2^32-1" },
-            Family { name: "b_configured_ceiling", world: "B", weight: 1, gen: c14_gen_b, oracles: c14_oracles, adversary: None, keep_workload: false, custom: None,
+            Family { name: "b_configured_ceiling", world: "B", weight: 1, gen: c14_gen_b, oracles: c14_oracles, adversary: None, claims: None, keep_workload: false, custom: None,
                 what: "real Client/Server with asymmetric rate configurations: the same bound evaluator, with a client's ceiling taken from the two endpoint configurations (min of its max_send_rate and the server's max_receive_rate) rather than from the connection's own field" },
-            Family { name: "a_real_feedback", world: "A", weight: 20, gen: c14_gen_a, oracles: c14_oracles, adversary: None, keep_workload: false, custom: None,
+            Family { name: "a_real_feedback", world: "A", weight: 20, gen: c14_gen_a, oracles: c14_oracles, adversary: None, claims: None, keep_workload: false, custom: None,
                 what: "two half connections under loss, blackouts and stalls: the feedback histories a real uflow receiver produces" },
         ],
         panic_is_violation: panics_in_rate_code,
@@ -2027,7 +2027,7 @@ fn c15_oracles_unused(_plan: &Plan) -> Vec<Box<dyn Oracle>> {
 pub fn c15() -> CheckDef {
     CheckDef {
         property: "C15",
-        families: vec![Family { name: "a_twin_acks", world: "A", weight: 1, gen: c15_gen, oracles: c15_oracles_unused, adversary: Some(c15_adv), keep_workload: true, custom: Some(twin_run),
+        families: vec![Family { name: "a_twin_acks", world: "A", weight: 1, gen: c15_gen, oracles: c15_oracles_unused, adversary: Some(c15_adv), claims: None, keep_workload: true, custom: Some(twin_run),
             what: "twin runs: the same plan with and without extra ack frames delivered to one sender - groups over known frames with the wrong parity, groups touching only unknown frames (beyond the next id / behind the log), exact copies of genuine ack frames replayed 1 us..2 min after the original was consumed, genuine groups re-packed into a new frame; the window-base fields equal what the sender already holds" }],
         panic_is_violation: no_panics,
         hang_is_violation: false,
@@ -2073,9 +2073,9 @@ pub fn c07() -> CheckDef {
     CheckDef {
         property: "C07",
         families: vec![
-            Family { name: "b_handshake_faults", world: "B", weight: 3, gen: c07_gen_faulty, oracles: c07_oracles, adversary: Some(c07_adv), keep_workload: true, custom: None,
+            Family { name: "b_handshake_faults", world: "B", weight: 3, gen: c07_gen_faulty, oracles: c07_oracles, adversary: Some(c07_adv), claims: None, keep_workload: true, custom: None,
                 what: "1-6 clients arriving within 3 s, loss/dup/reorder aimed at SYN, SYN-ACK, ACK and error frames, forged handshake frames from spoofed client and server addresses with nonces that differ from the genuine ones, replays of genuine handshake frames up to 20 s later, incompatible configurations, wrong-version SYNs, client crash and restart on the same address, a few reliable packets per connection" },
-            Family { name: "b_handshake_clean", world: "B", weight: 1, gen: c07_gen_clean, oracles: c07_oracles, adversary: Some(c07_adv), keep_workload: false, custom: None,
+            Family { name: "b_handshake_clean", world: "B", weight: 1, gen: c07_gen_clean, oracles: c07_oracles, adversary: Some(c07_adv), claims: None, keep_workload: false, custom: None,
                 what: "same population on a link that loses only a random subset of the first three datagrams of each handshake direction, or the first 4-10 of the server's 11 SYN-ACK transmissions (during which the server application may drop() the pending handshake, so that the client's next SYN starts it again): incompatible configurations must be refused with the matching error, compatible ones must connect on BOTH sides (retries of SYN, SYN-ACK and ACK complete the handshake), stay connected, and agree on sequence numbers and limits" },
         ],
         panic_is_violation: no_panics,
@@ -2105,7 +2105,7 @@ fn c08_oracles(_plan: &Plan) -> Vec<Box<dyn Oracle>> {
 pub fn c08() -> CheckDef {
     CheckDef {
         property: "C08",
-        families: vec![Family { name: "b_lifecycle", world: "B", weight: 1, gen: c08_gen, oracles: c08_oracles, adversary: None, keep_workload: false, custom: None,
+        families: vec![Family { name: "b_lifecycle", world: "B", weight: 1, gen: c08_gen, oracles: c08_oracles, adversary: None, claims: None, keep_workload: false, custom: None,
             what: "1-4 clients, random interleavings of send / disconnect / disconnect_now / Server::drop / step / flush on both endpoints, client crash and restart, loss and duplication aimed at handshake and disconnect frames, blackouts, active timeouts 1-20 s racing the disconnect retries, skewed clocks, stalls, stray handshake frames (foreign versions, other nonces, incompatible limits, stray ACKs) from the clients' own addresses during the connection's life" }],
         panic_is_violation: no_panics,
         hang_is_violation: false,
@@ -2134,9 +2134,9 @@ pub fn c17() -> CheckDef {
     CheckDef {
         property: "C17",
         families: vec![
-            Family { name: "b_limits_clean", world: "B", weight: 1, gen: c17_gen_clean, oracles: c17_oracles, adversary: None, keep_workload: false, custom: None,
+            Family { name: "b_limits_clean", world: "B", weight: 1, gen: c17_gen_clean, oracles: c17_oracles, adversary: None, claims: None, keep_workload: false, custom: None,
                 what: "max_active 1..6 x max_total 1..12 swept by run index, 1-12 clients arriving in two bursts (latency up to 300 ms so that many SYNs precede the first ACK; the second burst arrives while connections of the first are ending or lingering), connections ending by disconnect from either side, Server::drop, client crash, disconnect followed by Server::drop of the closing/closed entry, and handshakes abandoned right after the SYN; loss-free link: refused clients must see ServerFull, and a late client must be admitted once capacity has returned" },
-            Family { name: "b_limits_faults", world: "B", weight: 1, gen: c17_gen_faulty, oracles: c17_oracles, adversary: None, keep_workload: false, custom: None,
+            Family { name: "b_limits_faults", world: "B", weight: 1, gen: c17_gen_faulty, oracles: c17_oracles, adversary: None, claims: None, keep_workload: false, custom: None,
                 what: "same with loss/dup/reorder of handshake and disconnect frames: the two counters must hold at every step" },
         ],
         panic_is_violation: no_panics,
@@ -2168,9 +2168,9 @@ fn c18_oracles(_plan: &Plan) -> Vec<Box<dyn Oracle>> {
 pub fn c18() -> CheckDef {
     CheckDef {
         property: "C18",
-        families: vec![Family { name: "b_spoof_long", world: "B", weight: 1, gen: c18_gen_long, oracles: c18_oracles, adversary: None, keep_workload: false, custom: None,
+        families: vec![Family { name: "b_spoof_long", world: "B", weight: 1, gen: c18_gen_long, oracles: c18_oracles, adversary: None, claims: None, keep_workload: false, custom: None,
             what: "abandoned handshakes (one valid SYN, never answered) watched for 300 s on servers whose silence timeout is 20 s..600 s, with and without a trickle (every 3-19 s) of stray data, sync or ack frames from the same address" },
-            Family { name: "b_spoof", world: "B", weight: 7, gen: c18_gen, oracles: c18_oracles, adversary: Some(c18_adv), keep_workload: false, custom: None,
+            Family { name: "b_spoof", world: "B", weight: 7, gen: c18_gen, oracles: c18_oracles, adversary: Some(c18_adv), claims: None, keep_workload: false, custom: None,
             what: "1-5 spoofable addresses that never return a nonce: valid 1472-byte SYNs (repeated, same or fresh nonce), undersized CRC-valid SYNs (length swept over 5..1471 across runs), wrong-version, configuration-refused and capacity-refused SYNs, stray frames of every other type, bursts of 80-400 small stray frames of one type right after a valid SYN, 'promote me' attempts (a SYN with a self-chosen nonce followed by data / ack / sync frames numbered with it), an attacker that extrapolates the server's next nonce from the two its own addresses were handed and acknowledges in the name of a third address, a server application that sends 20 kB to every address it believes connected every few seconds, gaps up to 25 s (beyond the handshake timeout); servers with and without free capacity; the violation is the payload-byte balance, the balance with 28 header bytes per datagram is reported as a measurement" }],
         panic_is_violation: no_panics,
         hang_is_violation: false,
@@ -2196,7 +2196,7 @@ fn c09_oracles(_plan: &Plan) -> Vec<Box<dyn Oracle>> {
 pub fn c09() -> CheckDef {
     CheckDef {
         property: "C09",
-        families: vec![Family { name: "b_disconnect", world: "B", weight: 1, gen: c09_gen, oracles: c09_oracles, adversary: None, keep_workload: false, custom: None,
+        families: vec![Family { name: "b_disconnect", world: "B", weight: 1, gen: c09_gen, oracles: c09_oracles, adversary: None, claims: None, keep_workload: false, custom: None,
             what: "0-200 packets of mixed modes queued (30 %: followed by 1-4 Reliable packets without payload), then disconnect() (70 %) or disconnect_now() from the client or the server; loss/dup/reorder/corruption of data, ack, disconnect and disconnect-ack frames; total or one-way blackout starting right after the call (sometimes healing); the peer passive or (15 %) disconnecting as well; active timeouts 2-20 s" }],
         panic_is_violation: no_panics,
         hang_is_violation: false,
@@ -2231,11 +2231,11 @@ pub fn c10() -> CheckDef {
     CheckDef {
         property: "C10",
         families: vec![
-            Family { name: "b_silence", world: "B", weight: 16, gen: c10_gen_silence, oracles: c10_oracles, adversary: None, keep_workload: false, custom: None,
+            Family { name: "b_silence", world: "B", weight: 16, gen: c10_gen_silence, oracles: c10_oracles, adversary: None, claims: None, keep_workload: false, custom: None,
                 what: "active timeouts 0.2-60 s chosen independently per side, keepalive on/off (0.1-30 s), the handshake loses its first k = 0..10 SYNs or SYN-ACKs (swept by run index), busy or idle connections, blackouts of 0.1-70 s in one or both directions, clocks skewed by +-2 % and jumping forward by 0.1-5 s, step periods 1-400 ms with jitter and stalls, a trickle of non-frame datagrams (several per step) at one endpoint; every Error(Timeout) and every step is checked against the endpoint's own clock" },
-            Family { name: "b_retry_budget", world: "B", weight: 6, gen: c10_gen_retry, oracles: c10_oracles, adversary: None, keep_workload: false, custom: None,
+            Family { name: "b_retry_budget", world: "B", weight: 6, gen: c10_gen_retry, oracles: c10_oracles, adversary: None, claims: None, keep_workload: false, custom: None,
                 what: "unanswered handshakes (no server, total blackout, SYN-ACKs lost) and disconnect_now() into a blackout: exactly 1 + 10 transmissions at least 2 s apart, Error(Timeout) no earlier than 22 s after the first" },
-            Family { name: "b_idle_keepalive", world: "B", weight: 1, gen: c10_gen_idle, oracles: c10_oracles, adversary: None, keep_workload: false, custom: None,
+            Family { name: "b_idle_keepalive", world: "B", weight: 1, gen: c10_gen_idle, oracles: c10_oracles, adversary: None, claims: None, keep_workload: false, custom: None,
                 what: "loss-free link, idle connection, keepalive interval such that max(interval, 2 s) + RTT + 2 step periods fits 1.25-4.25 times into the timeout: no timeout during 1-2 (thorough: 1-6) simulated hours" },
         ],
         panic_is_violation: no_panics,
@@ -2412,11 +2412,11 @@ pub fn c11() -> CheckDef {
     CheckDef {
         property: "C11",
         families: vec![
-            Family { name: "a_blackout_recover", world: "A", weight: 4, gen: c11_gen_recover, oracles: c11_oracles, adversary: None, keep_workload: false, custom: None,
+            Family { name: "a_blackout_recover", world: "A", weight: 4, gen: c11_gen_recover, oracles: c11_oracles, adversary: None, claims: None, keep_workload: false, custom: None,
                 what: "warm-up traffic, then a blackout of 0.1..19 s (40 s thorough) in one or both directions, or the loss of all acknowledgements, or 50 % loss, or a lasting x10 / /10 change of the round-trip time; small and default windows, exhausted allocation; after the last fault probe packets of every mode (TimeSensitive ones every second, flushed at once) must be delivered, everything Reliable delivered and the senders drained within T_live" },
-            Family { name: "b_blackout_recover", world: "B", weight: 1, gen: c11_gen_b, oracles: c11_oracles, adversary: None, keep_workload: false, custom: None,
+            Family { name: "b_blackout_recover", world: "B", weight: 1, gen: c11_gen_b, oracles: c11_oracles, adversary: None, claims: None, keep_workload: false, custom: None,
                 what: "through the public API with active_timeout_ms = 30 min (so that the silence timer, which is C10's business, cannot end the connection): faults and a blackout until the heal, then everything Reliable must arrive and the senders drain" },
-            Family { name: "a_rate_recovers", world: "A", weight: 1, gen: c11_gen_rate, oracles: c11_oracles_rate, adversary: None, keep_workload: false, custom: None,
+            Family { name: "a_rate_recovers", world: "A", weight: 1, gen: c11_gen_rate, oracles: c11_oracles_rate, adversary: None, claims: None, keep_workload: false, custom: None,
                 what: "same faults with a standing backlog; after 600 s on a clean link the allowed rate must have left the s/64 floor (>= min(ceiling, 10 x floor))" },
         ],
         panic_is_violation: no_panics,
@@ -2569,11 +2569,11 @@ fn c19_oracles(_plan: &Plan) -> Vec<Box<dyn Oracle>> {
 pub fn c19() -> CheckDef {
     CheckDef {
         property: "C19",
-        families: vec![Family { name: "b_heap", world: "B", weight: 1, gen: c19_gen_b, oracles: c19_oracles, adversary: Some(c19_adv_b), keep_workload: false, custom: None,
+        families: vec![Family { name: "b_heap", world: "B", weight: 1, gen: c19_gen_b, oracles: c19_oracles, adversary: Some(c19_adv_b), claims: None, keep_workload: false, custom: None,
             what: "real Client/Server lifecycles: multi-fragment traffic, disconnects from both sides, Server::drop(), clients destroyed mid-transfer and recreated, the server destroyed with live clients, applications that drop the event iterator of step() after 0-2 events, forged and replayed handshake frames at every phase; same allocator oracle (layouts, zero-size requests, double releases via a quarantine of freed blocks, live blocks and bytes after teardown)" },
-        Family { name: "a_heap_hostile", world: "A", weight: 1, gen: c19_gen_hostile, oracles: c19_oracles, adversary: Some(c19_adv), keep_workload: false, custom: None,
+        Family { name: "a_heap_hostile", world: "A", weight: 1, gen: c19_gen_hostile, oracles: c19_oracles, adversary: Some(c19_adv), claims: None, keep_workload: false, custom: None,
             what: "a victim connection against a hostile connected peer (random well-formed frames; never-completing packets; packets announced by their last fragment; complete packets with inconsistent parent leads followed by a walk of the receive window over one slot array and new packets in the same slots), read at any cadence, then dropped; same allocator oracle" },
-        Family { name: "a_heap", world: "A", weight: 2, gen: c19_gen, oracles: c19_oracles, adversary: None, keep_workload: false, custom: None,
+        Family { name: "a_heap", world: "A", weight: 2, gen: c19_gen, oracles: c19_oracles, adversary: None, claims: None, keep_workload: false, custom: None,
             what: "multi-fragment sizes that are not multiples of the fragment size in every mode; delivered, skipped, window advanced over partial packets (loss of Unreliable/Persistent fragments), connection dropped mid-transfer; a layout-checking allocator watches every deallocation, and after dropping every endpoint the bytes they allocated must all be back" }],
         panic_is_violation: no_panics,
         hang_is_violation: false,
@@ -2648,11 +2648,11 @@ fn c20_gen_lifecycle(seed: u64, run: u64, thorough: bool) -> Plan {
 pub fn c20() -> CheckDef {
     CheckDef {
         property: "C20",
-        families: vec![Family { name: "b_buffer_lifecycle", world: "B", weight: 1, gen: c20_gen_lifecycle, oracles: c20_oracles, adversary: None, keep_workload: false, custom: None,
+        families: vec![Family { name: "b_buffer_lifecycle", world: "B", weight: 1, gen: c20_gen_lifecycle, oracles: c20_oracles, adversary: None, claims: None, keep_workload: false, custom: None,
             what: "the same model through connection lifecycles (sends interleaved with disconnect() / disconnect_now() from either side, Server::drop, client restarts, faults on handshake and disconnect frames): the public send_buffer_size() of Client and RemoteClient is compared with the model as long as the connection is established, including while a graceful disconnect is being flushed" },
-            Family { name: "b_buffer", world: "B", weight: 1, gen: c20_gen_b, oracles: c20_oracles, adversary: None, keep_workload: false, custom: None,
+            Family { name: "b_buffer", world: "B", weight: 1, gen: c20_gen_b, oracles: c20_oracles, adversary: None, claims: None, keep_workload: false, custom: None,
             what: "the same model against the send_buffer_size() of real Clients and RemoteClients (packets queued before Connect included)" },
-        Family { name: "a_buffer", world: "A", weight: 3, gen: c20_gen, oracles: c20_oracles, adversary: None, keep_workload: false, custom: None,
+        Family { name: "a_buffer", world: "A", weight: 3, gen: c20_gen, oracles: c20_oracles, adversary: None, claims: None, keep_workload: false, custom: None,
             what: "mixed traffic with many TimeSensitive packets, window and allocation stalls, ack loss; after every call send_buffer_size() must equal accepted - acknowledged - discarded" }],
         panic_is_violation: overflow_in_sender,
         hang_is_violation: false,
